@@ -73,6 +73,26 @@ pub fn run(rep: &mut Report, thorough: bool) {
         sweep_frames(rep, cfg, &format!("echo-seq-{}", tag), "echo sequence 0..65535 x {v4,v6}", 65536 * 2, |i| {
             flow(i >= 65536, 1, 1).icmp_echo(0xbeef, i as u16, b"data")
         });
+        // link-layer trailers: bytes after the IP datagram (Ethernet padding of short frames, FCS
+        // remnants) are not part of the message
+        let dims = [4u64, 21, 20, 2];
+        sweep_frames(rep, cfg, &format!("link-trailer-{}", tag), "{echo4, echo6, ND-NS, ARP} x data length 0..20 x trailer length 1..18, 46, 100 x trailer byte {00, ff}", crate::engine::product(&dims), |i| {
+            let d = crate::engine::unrank(i, &dims);
+            let data: Vec<u8> = (0..d[1] as usize).map(|k| b'a' + k as u8).collect();
+            let mut fr = match d[0] {
+                0 => flow4(1, 1).icmp_echo(0x1234, 1, &data),
+                1 => flow6(1, 1).icmp_echo(0x1234, 1, &data),
+                2 => eth(&MAC_SRV, &MAC_CLI, ET_IP6, &nd_ns(&cli6(), &srv6(), &srv6(), &slla(&MAC_CLI), 0)),
+                _ => eth(&[0xff; 6], &MAC_CLI, ET_ARP, &Arp::request(MAC_CLI, v4(cli4()), v4(srv4())).bytes()),
+            };
+            let n = match d[2] {
+                18 => 46,
+                19 => 100,
+                k => k as usize + 1,
+            };
+            fr.extend(std::iter::repeat(if d[3] == 0 { 0u8 } else { 0xff }).take(n));
+            fr
+        });
         // echo data lengths 0..1472 with position-dependent content
         let maxlen: u64 = 1473;
         sweep_frames(rep, cfg, &format!("echo-len-{}", tag), "echo data length 0..1472 x {v4,v6}", maxlen * 2, |i| {
